@@ -138,7 +138,7 @@ PROPS = {
         "trusted_base": COMMON_TB + ["S2 compression and the on-disk codec are exercised by the suite, proved separately in C11",
                                      "kway.MergeVersions: the specification (sorted, later list wins) is proved equal to the heap merge of the code for any minimum heap.Pop returns (Kway.run_eq_spec); container/heap (returns a minimum w.r.t. Less), the Go map and slices.SortFunc are trusted",
                                      "extract/gotrans.go (the Go-to-Lean translator, DESIGN section 14): regenerates GenLevel.discardStale (levelManager.discardStaleEntries) from /repo on every run; types.ParseKey/ParseTs are the projections of the model's versioned key (key suite), the Go map an association list, slices.SortFunc any function that keeps the elements; LevelTie.discardStale_allowed is part of this property's module",
-                                     "extract/gotrans.go also regenerates GenKway.merge (pkg/kway merge: the three loops, the slice of slices read and written by index, the map latest); KwayTie.merge_eq (for strictly sorted inputs merge with keepTombstone = true is LSM.mergeVersions) is part of this property's module; container/heap is a list kept sorted by Heap.Less (Push = sorted insertion, Pop = head), slices.SortFunc any function that sorts lists of distinct keys (insertion sort is one: KwayTie.isort_spec)"],
+                                     "extract/gotrans.go also regenerates GenLevel.overlapLN (which tables of a level a compaction takes; LevelTie.overlapLN_eq: a filter of the level's list; the two key comparisons are predicates on the table)", "extract/gotrans.go also regenerates GenKway.merge (pkg/kway merge: the three loops, the slice of slices read and written by index, the map latest); KwayTie.merge_eq (for strictly sorted inputs merge with keepTombstone = true is LSM.mergeVersions) is part of this property's module; container/heap is a list kept sorted by Heap.Less (Push = sorted insertion, Pop = head), slices.SortFunc any function that sorts lists of distinct keys (insertion sort is one: KwayTie.isort_spec)"],
         "assumptions": ["two entries with the same versioned key are identical (a versioned key is written once); the choice of compaction inputs is arbitrary in the theorem"],
         "explanation": "theorems C09_* over LSM.compactOutput/search for all table sets, watermarks and block sizes; discardStaleEntries translated from the Go source on every run and proved to give an accepted compaction output (C09_code_*); implementation tied by the levels suite (flushToL0/checkAndCompact/recover/searchLowerBound vs model and brute-force spec)",
     },
